@@ -241,6 +241,7 @@ fn run_spline<T: Fl>(job: &Job, out: &mut JobOut) {
                     continue;
                 }
             };
+            let viol_before = out.viol.len();
             let mut reported = false;
             for (j, &li) in sel.iter().enumerate() {
                 let l = &lanes[li];
@@ -300,6 +301,7 @@ fn run_spline<T: Fl>(job: &Job, out: &mut JobOut) {
                     }
                 }
             }
+            out.outcome(format!("spline/{}:{}", bname.split('(').next().unwrap_or(""), if out.viol.len() == viol_before { "every polynomial reproduced" } else { "a polynomial not reproduced" }));
         }
     }
     if out.sample.is_none() {
